@@ -413,3 +413,31 @@ pub fn utf8_table_sweep(lane: usize, lanes: usize, mut f: impl FnMut(&[u8]) -> b
     }
     true
 }
+
+/// Triples for fast paths that stay inside a run of same-length sequences and may keep something
+/// from the FIRST sequence of the run (its lead class) while checking the third: for every
+/// near-valid sequence S with a three- or four-byte lead, [A1, A2, S] where A1 ranges over the
+/// valid representatives of the same length and A2 over one representative per lead of that length.
+pub fn utf8_run_triples(mut f: impl FnMut(&[u8], &[u8], &[u8]) -> bool) -> bool {
+    let near = utf8_near_valid(false);
+    let reps = utf8_valid_reps();
+    for len in [3usize, 4] {
+        let a1s: Vec<&Vec<u8>> = reps.iter().filter(|r| r.len() == len).collect();
+        let mut a2s: Vec<&Vec<u8>> = Vec::new();
+        for r in &a1s {
+            if !a2s.iter().any(|x| x[0] == r[0]) {
+                a2s.push(r);
+            }
+        }
+        for s in near.iter().filter(|s| s.len() >= 2 && ((len == 3 && (0xE0..=0xEF).contains(&s[0])) || (len == 4 && (0xF0..=0xF7).contains(&s[0])))) {
+            for a1 in &a1s {
+                for a2 in &a2s {
+                    if !f(a1, a2, s) {
+                        return false;
+                    }
+                }
+            }
+        }
+    }
+    true
+}
